@@ -46,9 +46,21 @@ def wt_noise(case, cfg, tau, levels):
     return out
 
 
-def mu_noise(case, shift=0.0):
-    """64 eps * sum over all players of (|mu| + |shift|)"""
-    return 64 * EPS * math.fsum(abs(p[0]) + abs(shift) for t in case["teams"] for p in t)
+def mu_noise(case, shift=0.0, tau=None, beta=None):
+    """64 eps * sum over all players of (|mu| + |shift|), plus - when tau and beta are given - the rounding INSIDE the
+    accumulated update: Omega_i = s_i^2/c * sum_q terms with |terms| <= 1 (BT/PL) or <= |x| + 1 (TM) carries an absolute
+    rounding of about eps * s_i^2/c_min * sum_q (1 + |x_iq|) even when the exact sum cancels to nothing (all teams level and
+    tied, mu = 0: the first two terms vanish with mu and dmu).  Same term as in C07's allowance (false alarm 12)."""
+    n = 64 * EPS * math.fsum(abs(p[0]) + abs(shift) for t in case["teams"] for p in t)
+    if tau is not None and beta:
+        th, s2 = team_stats(case, tau)
+        cmin = math.sqrt(2.0) * beta
+        worst = 0.0
+        for i in range(len(th)):
+            acc = math.fsum(1.0 + abs(th[i] - th[q]) / cmin for q in range(len(th)) if q != i)
+            worst = max(worst, s2[i] / cmin * acc)
+        n += 16 * EPS * worst
+    return n
 
 
 def rho(sig_post, sig_prior, tau):
